@@ -256,3 +256,89 @@ def suite_end_to_end(tier: str, seed: int, mult: int) -> SuiteResult:
         shutil.rmtree(work, ignore_errors=True)
     res.counters = cnt
     return res
+
+
+def suite_transcription(tier: str, seed: int, mult: int) -> SuiteResult:
+    """the Lean transcription of the C++ kernels (driver command CXX) vs the compiled kernels"""
+    rng = random.Random(seed + 107)
+    nrng = np.random.default_rng(seed + 107)
+    res = SuiteResult("S-CXX[transcription vs compiled]")
+    work = Path(tempfile.mkdtemp(prefix="bbverif-cxx3-", dir=SCRATCH))
+    d = Driver()
+    cnt = {"popcount": 0, "unpack": 0, "centroid": 0, "isim": 0, "arrvec": 0, "dissim": 0, "throws": 0}
+    from core import show_rat
+
+    def hexrow(r):
+        return bytes(np.asarray(r, dtype=np.uint8).tolist()).hex()
+
+    def note(kind, a, b, ctx):
+        res.evaluations += 1
+        cnt[kind] += 1
+        if a != b and res.disagreement is None:
+            res.disagreement = {"what": f"Lean transcription of {kind} vs compiled kernel", "model": b[:600], "impl": a[:600], **ctx}
+
+    try:
+        lib = build(work)
+        for _ in range((250 if tier == "quick" else 4000) * mult):
+            nb = rng.choice([1, 2, 3, 7, 8, 9, 16, 63, 64, 65, 128])
+            n = rng.randint(1, 6)
+            dens = rng.choice([0, 0.1, 0.5, 0.9, 1.0])
+            X = np.packbits((nrng.random((n, nb * 8)) < dens).astype(np.uint8), axis=1)
+            mis = rng.choice([0, 0, 1, 4])
+            Xa = placed(X, mis)
+            al = 1 if mis == 0 else 0
+            rows = ",".join(hexrow(r) for r in X)
+            out = np.zeros(n, dtype=np.uint32)
+            lib.c_popcount_2d(Xa.ctypes.data, n, nb, out.ctypes.data)
+            note("popcount", " ".join(map(str, out.tolist())), d.cmd(f"CXX op=popcount aligned={al} rows={rows}"), {"rows": rows, "aligned": al})
+            nf = rng.choice([-1, -1, 8 * nb, 8 * rng.randint(0, nb), rng.randint(0, 8 * nb)])
+            nfo = nb * 8 if nf < 0 else nf
+            o2 = np.zeros((n, nfo + 8), dtype=np.uint8)[:, :nfo].copy()
+            rc = lib.c_unpack_2d(Xa.ctypes.data, n, nb, nf, o2.ctypes.data if nfo % 8 == 0 else np.zeros((n, nfo + 16), dtype=np.uint8).ctypes.data)
+            a = "err" if rc else ",".join(hexrow(r) for r in o2)
+            cnt["throws"] += bool(rc)
+            note("unpack", a, d.cmd(f"CXX op=unpack rows={rows} nf={'-' if nf < 0 else nf}"), {"rows": rows, "nf": nf})
+            L = rng.choice([8, 16, 24, 8 * nb])
+            nn = rng.choice([-3, 0, 1, 2, 3, 5, n, 1000, 2 ** 40])
+            if nn <= 1:
+                ks = [rng.choice([0, 1]) if rng.random() < 0.8 else rng.randint(0, 2 ** 64 - 1) for _ in range(L)]
+            else:
+                ks = [rng.randint(0, max(nn, 1)) if rng.random() < 0.9 else rng.randint(0, 2 ** 52) for _ in range(L)]
+            for pk in (0, 1):
+                ls = np.array(ks, dtype=np.uint64)
+                o = np.zeros(L // 8 if pk else L, dtype=np.uint8)
+                lib.c_centroid(ls.ctypes.data, L, nn, pk, o.ctypes.data)
+                note("centroid", hexrow(o), d.cmd(f"CXX op=centroid n={nn} pack={pk} ks={','.join(map(str, ks))}"), {"n": nn, "ks": ks, "pack": pk})
+            nn = rng.choice([-1, 1, 2, 3, n, 100, 2 ** 33, 2 ** 62])
+            ks = [rng.randint(0, max(nn, 1)) if rng.random() < 0.7 else rng.randint(0, 2 ** 64 - 1) for _ in range(rng.randint(1, 12))]
+            if rng.random() < 0.1:
+                ks = [0] * len(ks)
+            ls = np.array(ks, dtype=np.uint64)
+            v = lib.c_isim(ls.ctypes.data, len(ks), nn)
+            b = d.cmd(f"CXX op=isim n={nn} ks={','.join(map(str, ks))}")
+            if v != v:
+                note("isim", "nan", b, {"n": nn, "ks": ks})
+            elif v not in (float("inf"), float("-inf")):
+                note("isim", show_rat(v), b, {"n": nn, "ks": ks})
+            y = np.packbits((nrng.random(nb * 8) < rng.choice([0, 0.3, 0.8])).astype(np.uint8))
+            ya = placed(y, mis)
+            o = np.zeros(n)
+            lib.c_arr_vec(Xa.ctypes.data, n, nb, ya.ctypes.data, o.ctypes.data)
+            note("arrvec", ",".join(show_rat(x) for x in o), d.cmd(f"CXX op=arrvec aligned={al} rows={rows} y={hexrow(y)}"), {"rows": rows, "y": hexrow(y)})
+            nf = rng.choice([-1, -1, 8 * nb, 8 * nb, 8 * rng.randint(1, nb) if nb > 1 else 8, rng.randint(1, 8 * nb)])
+            if nf > 8 * nb:
+                nf = 8 * nb
+            i1, i2 = C.c_long(0), C.c_long(0)
+            s1, s2 = np.zeros(n), np.zeros(n)
+            rc = lib.c_most_dissimilar(Xa.ctypes.data, n, nb, nf, C.byref(i1), C.byref(i2), s1.ctypes.data, s2.ctypes.data)
+            a = "err" if rc else f"{i1.value} {i2.value} {','.join(show_rat(x) for x in s1)} {','.join(show_rat(x) for x in s2)}"
+            cnt["throws"] += bool(rc)
+            note("dissim", a, d.cmd(f"CXX op=dissim aligned={al} rows={rows} nf={'-' if nf < 0 else nf}"), {"rows": rows, "nf": nf})
+            res.nontrivial += 1
+            if len(res.samples) < 2:
+                res.samples.append({"row_bytes": nb, "rows": n, "aligned": al})
+    finally:
+        d.close()
+        shutil.rmtree(work, ignore_errors=True)
+    res.counters = cnt
+    return res
